@@ -229,6 +229,9 @@ func propC11(r *Run) {
 		if r.Choose("fs-yields", 4) == 0 {
 			w.fsYields()
 		}
+		if len(vias) > 1 && r.Choose("net-yields", 4) == 0 {
+			w.netYields()
+		}
 		slow := []int{1, 2, 5, 15}[r.Choose("dispatcher-slowness", 4)]
 		w.runLoop(loopOpts{maxSteps: 1200, wClient: slow * 3, wLoop: 4, wClock: 1})
 		if wedge := w.drain(nil); wedge != "" {
